@@ -75,7 +75,7 @@ REQUIRED_THEOREMS = ["Clikit.Props.C08." + n for n in (
     "option_tokens_all", "option_tokens_prefix", "option_token_after_dashes", "string_argv_same",
     "quoted_string_is_argv", "string_argv_same_total", "option_tokens_split", "option_tokens_idem",
     "option_tokens_tail_irrelevant", "line_raw_total", "string_argv_same_parse", "line_history_fresh",
-    "earlier_lines_inert", "line_history_form_irrelevant", "freshOut_forms")]
+    "earlier_lines_inert", "line_history_form_irrelevant", "line_history_forms_same_parses", "freshOut_forms")]
 RULE = ("s: exhaustive strings up to length 5 (quick) / 7 (thorough) over {a,space,tab,',\",\\,-}, each up to length 5 "
         "also quoted as a token in both quote styles, plus seeded random strings of length 0-12 over the wide alphabet; q: seeded random token lists (0-4 tokens x 0-5 chars over letters, "
         "ASCII/non-ASCII whitespace, quotes, backslash, '-', '=', non-ASCII) x style per token x separators, plus a negative "
